@@ -3,7 +3,7 @@ import vlib
 class P(vlib.Prop):
     id = "C05"
     watch = ("pkg/apk/apk/implementation.go", "pkg/apk/expandapk/*.go", "pkg/apk/apk/install.go", "pkg/tarfs/fs.go", "pkg/build/installable_from_lock.go")
-    rule = ("install stage: 117 package variants in 12 families — every substitution of the statement (control of another build, data of another package, a modified body, "
+    rule = ("install stage: 122 package variants in 12 families — every substitution of the statement (control of another build, data of another package, a modified body, "
             "a modified / missing / undecodable / borrowed per-file checksum, a different internally consistent package under the URL, wrong / absent / empty / duplicated / upper-case datahash, "
             "checksum strings without Q1 / not base64 / empty / of another build, nothing under the URL), symlinks, hard links (to a file, to a link, retargeted, dangling, before their target, between files), "
             "top-level dot files, every shape of the served byte stream (unsigned, bytes after the last member, truncated, one member, no member, empty, doubled or foreign members, a data section split over two "
@@ -12,7 +12,7 @@ class P(vlib.Prop):
             "hard link) with a body and a checksum record, genuine and altered, and the fixed C05-F4 shape (a sparse entry) — each x {tarfs lazy install, memfs streaming install} x the cache MODES "
             "{disabled; cold then again in a new process; warm from an earlier process; OFFLINE with a whole .apk pre-populated under the URL-derived name, over http} plus ONE of five further histories "
             "(warm without the uncompressed .dat.tar; variant first then origin repaired; same request twice in one process; online over http with a pre-populated file, then offline; online over http no cache / "
-            "cold / offline) rotating with the seed in the quick tier, all five in the thorough tier: 1170 cells quick, 2106 thorough; plus republished-URL / memo-key sequences, the well-formed variants behind "
+            "cold / offline) rotating with the seed in the quick tier, all five in the thorough tier: 1220 cells quick, 2196 thorough; plus republished-URL / memo-key sequences, the well-formed variants behind "
             "a real signed index (FixateWorld), and generated sequences of 2-4 installs with random cache directories, process boundaries, origins, transports, offline flags, pre-populated files and dropped tars. "
             "Every install goes through the real apk.New/InitDB/InstallPackages. Observed: success/failure, recorded pkgdesc, contents of every file readable afterwards under the name of any shipped entry that "
             "is not a directory or symlink. A case is a sequence; distinct = label + outcome pattern; distribution bucket = family/history/install path:outcomes.")
